@@ -24,6 +24,12 @@ FILLERS = {
     "pre": ("<pre>{S}\n== not heading ==\n* not list</pre>", True, True),
     "extlink": ("[http://x.org {S}]", True, True),
     "nowiki": ("<nowiki>{S} == * </nowiki>", True, True),
+    # constructs nested inside the arguments of other constructs
+    "nested-link-in-template": ("{{{{tpl|see [[{S}|label]] and {{{{u}}}}}}}}",
+                                True, True),
+    "nested-template-in-link": ("[[target|{{{{t|{S}}}}} text]]", True, True),
+    "nested-template-in-template": ("{{{{a|{{{{b|{S}}}}}|k={{{{c}}}}}}}}", True,
+                                    True),
     "blank": ("", True, False),
     "comment": ("<!-- c -->", False, False),  # line vanishes entirely
     "magic": ("__NOTOC__", True, False),
@@ -35,6 +41,7 @@ INLINE = {
     "template": " {{{{t|{S}}}}}",
     "span": " <span>{S}</span>",
     "italic": " ''{S}''",
+    "nested": " {{{{t|[[{S}]]}}}}",
 }
 
 
